@@ -13,6 +13,7 @@ import (
 	"path/filepath"
 	"strings"
 	"sync/atomic"
+	"syscall"
 	"time"
 
 	"github.com/folbricht/desync"
@@ -80,7 +81,7 @@ type scenario struct {
 func makeScenario(seed int64, s int, tier string) scenario {
 	rng := harness.CaseRng(seed^0x5eed, s)
 	var sc scenario
-	sc.op = []string{"chop", "chop", "copy", "chunkstream", "chop-stale", "cli", "s3", "sftp"}[rng.Intn(8)]
+	sc.op = []string{"chop", "chop", "copy", "chunkstream", "chop-stale", "cli", "s3", "sftp", "cli-local"}[rng.Intn(9)]
 	sc.sz = dsu.SmallSizes[rng.Intn(3)]
 	sc.n = []int{1, 2, 4, 16}[rng.Intn(4)]
 	sc.dup = rng.Intn(2) == 0
@@ -95,7 +96,7 @@ func makeScenario(seed int64, s int, tier string) scenario {
 	} else {
 		sc.blob = dsu.MakeBlob(rng, "random", size, sc.sz)
 	}
-	if sc.op == "cli" {
+	if sc.op == "cli" || sc.op == "cli-local" {
 		// the CLI takes sizes in KiB
 		sc.sz = dsu.Sizes{Min: 1024, Avg: 2048, Max: 4096}
 		size = 2048 * (2 + rng.Intn(maxChunks))
@@ -127,6 +128,10 @@ func run(c *harness.Ctx, i int) {
 	}
 	if sc.op == "sftp" {
 		runSFTP(c, sc, s, slot)
+		return
+	}
+	if sc.op == "cli-local" {
+		runCLILocal(c, sc, s, slot)
 		return
 	}
 	// fault plan of the slot
@@ -308,6 +313,130 @@ func run(c *harness.Ctx, i int) {
 	}
 	c.Sample(map[string]interface{}{"op": sc.op, "chunks": len(sc.idx.Chunks), "n": sc.n, "dup": sc.dup, "fault": fmt.Sprintf("%s@%d", fop, fk), "delivered": nd, "result_error": fmt.Sprint(err),
 		"store_calls": map[string]int64{"has": dst.CountOf("has"), "store": dst.CountOf("store"), "get": src.CountOf("get")}})
+}
+
+// runCLILocal: make / chop / cache / tar -i into a LOCAL directory store, compressed or (through the config file)
+// uncompressed, on an ordinary directory or on a file system that runs full partway (a small tmpfs): the write errors
+// then come from the kernel, below anything a wrapper store could inject.
+func runCLILocal(c *harness.Ctx, sc scenario, s, slot int) {
+	if slot >= 12 {
+		c.Info("scenario=%d op=cli-local slot=%d skipped", s, slot)
+		return
+	}
+	rng := harness.CaseRng(c.Seed^0x10ca1, s*16+slot)
+	cmdName := []string{"make", "chop", "cache", "tar"}[slot%4]
+	uncompressed := (slot/4)%2 == 1
+	full := slot >= 8
+	dir := c.CaseDir()
+	target := filepath.Join(dir, "target")
+	os.MkdirAll(target, 0755)
+	pages := 0
+	if full {
+		// room for roughly a third to two thirds of the chunks
+		pages = 1 + len(sc.idx.Chunks)/3 + rng.Intn(len(sc.idx.Chunks)/3+1)
+		if err := syscall.Mount("tmpfs", target, "tmpfs", 0, fmt.Sprintf("size=%dk", 4*pages)); err != nil {
+			c.Count("cli_local_skipped_no_mount", 1)
+			return
+		}
+		defer syscall.Unmount(target, syscall.MNT_DETACH)
+	}
+	c.Info("scenario=%d op=cli-local:%s chunks=%d n=%d uncompressed=%v target-fs-pages=%d", s, cmdName, len(sc.idx.Chunks), sc.n, uncompressed, pages)
+	c.LogInfo()
+	cfgFile := filepath.Join(dir, "config.json")
+	dsu.WriteFile(cfgFile, []byte(fmt.Sprintf(`{"store-options": {%q: {"uncompressed": %v}}}`, target, uncompressed)))
+	file := filepath.Join(dir, "blob")
+	dsu.WriteFile(file, sc.blob)
+	idxFile := filepath.Join(dir, "blob.caibx")
+	args := []string{"--config", cfgFile}
+	expectIdx := sc.idx
+	switch cmdName {
+	case "make":
+		args = append(args, "make", "-n", fmt.Sprint(sc.n), "-m", "1:2:4", "-s", target, idxFile, file)
+	case "chop":
+		dsu.Must(dsu.WriteIndex(idxFile, sc.idx))
+		args = append(args, "chop", "-n", fmt.Sprint(sc.n), "-s", target, idxFile, file)
+	case "cache":
+		dsu.Must(dsu.WriteIndex(idxFile, sc.idx))
+		src := dsu.NewMemStore("src")
+		for _, ch := range sc.idx.Chunks {
+			src.PutRaw(ch.ID, sc.blob[ch.Start:ch.Start+ch.Size])
+		}
+		// the source serves compressed chunks, the target may be configured for the other format
+		srcSrv := httptest.NewServer(desync.NewHTTPHandler(src, false, false, desync.Converters{desync.Compressor{}}, ""))
+		defer srcSrv.Close()
+		args = append(args, "cache", "-n", fmt.Sprint(sc.n), "-s", srcSrv.URL, "-c", target, "-e", "1", idxFile)
+	case "tar":
+		tree := filepath.Join(dir, "tree")
+		os.MkdirAll(filepath.Join(tree, "d"), 0755)
+		dsu.WriteFile(filepath.Join(tree, "d", "blob"), sc.blob)
+		idxFile = filepath.Join(dir, "tree.caidx")
+		args = append(args, "tar", "-i", "-n", fmt.Sprint(sc.n), "-m", "1:2:4", "-s", target, idxFile, tree)
+	}
+	cmd := exec.Command(cli, args...)
+	cmd.Env = append(os.Environ(), "HOME="+dir)
+	var stderr bytes.Buffer
+	cmd.Stderr = &stderr
+	err := cmd.Run()
+	c.Count("cli_local_runs", 1)
+	// whatever the exit status: a file under a chunk name in the target holds that chunk
+	ls, _ := desync.NewLocalStore(target, desync.StoreOptions{Uncompressed: uncompressed})
+	bad := ""
+	filepath.Walk(target, func(p string, info os.FileInfo, werr error) error {
+		if werr != nil || info.IsDir() || strings.HasPrefix(filepath.Base(p), ".tmp-cacnk") {
+			return nil
+		}
+		id, perr := desync.ChunkIDFromString(strings.TrimSuffix(filepath.Base(p), ".cacnk"))
+		if perr != nil {
+			return nil
+		}
+		if strings.HasSuffix(p, ".cacnk") == uncompressed {
+			bad = fmt.Sprintf("%s is in the other format than the store is configured for", filepath.Base(p))
+			return nil
+		}
+		if _, gerr := ls.GetChunk(id); gerr != nil {
+			bad = fmt.Sprintf("%s (%d bytes): %v", filepath.Base(p)[:12], info.Size(), gerr)
+		}
+		return nil
+	})
+	if bad != "" {
+		c.Violation("invalid-chunk-in-target:cli-"+cmdName, "desync %s (exit: %v) left an invalid object in its target store (uncompressed=%v, file system of %d pages): %s", cmdName, err, uncompressed, pages, bad)
+		return
+	}
+	if err != nil {
+		if !full {
+			c.Violation("failed-without-fault:cli-local-"+cmdName, "desync %v failed: %v\n%s", args, err, stderr.String())
+			return
+		}
+		c.Count("cli_local_failed_on_full_fs", 1)
+		c.NonTrivial("cli-local|%s|u%v|full|failed", cmdName, uncompressed)
+		return
+	}
+	if cmdName == "make" || cmdName == "tar" {
+		raw, rerr := os.ReadFile(idxFile)
+		if rerr != nil {
+			c.Violation("cli-no-index", "exit 0 but %v", rerr)
+			return
+		}
+		got, perr := desync.IndexFromReader(bytes.NewReader(raw))
+		if perr != nil {
+			c.Violation("cli-index-format", "%v", perr)
+			return
+		}
+		expectIdx = got
+	}
+	for k, ch := range expectIdx.Chunks {
+		got, gerr := ls.GetChunk(ch.ID)
+		if gerr != nil {
+			c.Violation("missing-after-success:cli-local-"+cmdName, "desync %s exited 0 (uncompressed=%v, file system of %d pages) but chunk %d (%x) cannot be read from the target: %v", cmdName, uncompressed, pages, k, ch.ID[:4], gerr)
+			return
+		}
+		if b, _ := got.Data(); uint64(len(b)) != ch.Size {
+			c.Violation("invalid-after-success:cli-local-"+cmdName, "chunk %d has %d bytes, the index says %d", k, len(b), ch.Size)
+			return
+		}
+	}
+	c.NonTrivial("cli-local|%s|u%v|full%v|ok", cmdName, uncompressed, full)
+	c.Sample(map[string]interface{}{"op": "cli-local:" + cmdName, "chunks": len(sc.idx.Chunks), "uncompressed": uncompressed, "target_fs_pages": pages})
 }
 
 // runSFTP: chop / copy into an sftp:// target whose server (the shim) fails the k-th close of a written file after
